@@ -248,6 +248,21 @@ def gen_spec(rng, size=None):
     k = rng.choice([1, 1, 1, 1, 2, 3])
     if k > 1:
         gaps = [[g[0] * k + rng.randrange(k), g[1] * k + rng.randrange(k)] for g in gaps]
+        if gaps and rng.random() < 0.2:
+            # a sliver of samples strictly between two rain grid times, isolated by gaps on both
+            # sides: a gap-free stretch that owns no grid time at all (load numbers it, nothing carries it)
+            g = rng.choice(gaps)
+            end = g[0] + g[1]
+            if end % k == 0:
+                g[1] += 1
+                end += 1
+            room = k - end % k            # samples end .. end+room-1 lie before the next grid time
+            length = rng.randint(1, room)
+            if length == room:
+                length = max(1, room - 1) if room > 1 else 1
+            if end % k + length - 1 < k and (end + length - 1) % k != 0 or room > 1:
+                gaps.append([end + length, k * rng.randint(1, 3) + rng.randrange(k)])
+            gaps.sort()
     spec = {
         "kind": "synthetic",
         "dt": dt, "s0": s0, "j0": j0, "z0": z0, "z_base": z_base,
